@@ -44,9 +44,11 @@ class C01Machine(Machine):
         "nested_match", "synonym_nested_in_other_record", "empty_uri_prefix_registered",
         "probe_equals_prefix", "probe_one_short", "split_delivery", "dup_rejected", "clash_rejected",
         "confluence_group", "chain_parts", "multi_char_delimiter", "non_bmp_probe_matched",
-        "piece_carrier_canonical", "piece_carrier_synonym", "piece_carrier_via_uri",
+        "piece_carrier_canonical", "piece_carrier_synonym", "piece_carrier_via_uri", "piece_carrier_restated",
+        "chain_parts_overlapping",
         "bulk_via_ctor", "bulk_via_epm", "bulk_via_priority", "bulk_via_reverse", "large_owner_map", "derived_view_sub", "derived_view_chain_self", "derived_view_rewire", "derived_view_remap_uri",
-        "derived_view_remap_curie", "record_with_pattern", "piece_with_pattern", "more_than_256_uri_prefixes",
+        "derived_view_remap_curie", "record_with_pattern", "piece_with_pattern", "records_given_as_generator", "records_given_as_iterator",
+        "records_given_as_dict_values", "records_given_as_tuple", "records_given_as_map", "more_than_256_uri_prefixes",
     ]
 
     @classmethod
@@ -61,7 +63,7 @@ class C01Machine(Machine):
             "delimiter": rng.choice(tokens.DELIMITERS),
             "curie_pool": tokens.pick_pool(rng, tokens.CURIE_PREFIXES, tokens.RARE_CURIE_PREFIXES, 3, 10),
             "uri_pool": tokens.pick_pool(rng, tokens.URI_PREFIXES, tokens.RARE_URI_PREFIXES, n_uri, n_uri, rare_p=0.2),
-            "n_records": (rng.randint(1, 8) if not deep else rng.randint(6, 14)) if not large else rng.choice([15, 16, 17, 24, 31, 32, 33, 45]),
+            "n_records": (rng.randint(1, 8) if not deep else rng.randint(6, 14)) if not large else rng.choice([15, 16, 17, 24, 31, 32, 33, 45, 64, 65, 100]),
             "n_schedules": 3 if rng.random() < 0.25 else 1,
             "p_ctor_first": rng.choice([0.0, 0.3, 0.7]),
             "p_split": rng.choice([0.0, 0.3, 0.6]),
@@ -72,7 +74,7 @@ class C01Machine(Machine):
         huge = large and rng.random() < 0.05      # past 256 records / URI prefixes
         cfg["huge"] = huge
         if huge:
-            cfg["n_records"] = rng.choice([257, 258, 300])
+            cfg["n_records"] = rng.choice([128, 129, 255, 256, 257, 258, 300])
             cfg["curie_pool"] = cfg["curie_pool"] + tokens.synthetic_curie_prefixes(340)
             cfg["uri_pool"] = cfg["uri_pool"] + tokens.synthetic_uri_prefixes(rng.randint(620, 720))
             cfg["n_schedules"] = 1
@@ -107,6 +109,7 @@ class C01Machine(Machine):
         self.saw_incremental = False
         self.schedule_no = 0
         self.focus = []
+        self.delimiter_given = None
 
     # ----------------------------------------------------------- generation
     def gen_op(self, rng):
@@ -133,9 +136,26 @@ class C01Machine(Machine):
         if rng.random() < cfg["p_chain_parts"] and len(recs) >= 2:
             cut = rng.randint(1, len(recs) - 1)
             a, b = recs[:cut], recs[cut:]
+            overlapping = False
+            if rng.random() < 0.5:
+                # overlapping parts: a record of the first part appears again in the second one, restated
+                # with (some of) its URI-prefix synonyms, so that chain() really merges
+                a2 = []
+                for r in a:
+                    if r["uri_prefix_synonyms"] and rng.random() < 0.7:
+                        keep = [u for u in r["uri_prefix_synonyms"] if rng.random() < 0.4]
+                        moved = [u for u in r["uri_prefix_synonyms"] if u not in keep]
+                        a2.append(dict(r, uri_prefix_synonyms=keep))
+                        if moved:
+                            b = b + [dict(r, prefix_synonyms=[], uri_prefix_synonyms=moved)]
+                            overlapping = True
+                    else:
+                        a2.append(r)
+                a = a2
             rng.shuffle(a)
             rng.shuffle(b)
-            return [{"op": "chain_parts", "parts": [a, b], "delimiter": cfg["delimiter"], "schedule": k}]
+            return [{"op": "chain_parts", "parts": [a, b], "delimiter": cfg["delimiter"], "schedule": k,
+                     "overlapping": overlapping}]
         n_first = 0
         if rng.random() < cfg["p_ctor_first"]:
             n_first = rng.randint(0, len(recs))
@@ -146,7 +166,8 @@ class C01Machine(Machine):
         via = rng.choice(["ctor", "ctor", "epm", "priority", "reverse"])
         if via in ("priority", "reverse") and any(r["prefix_synonyms"] for r in first):
             via = "epm"
-        step0 = {"op": "ctor", "via": via, "records": first, "delimiter": cfg["delimiter"], "schedule": k}
+        step0 = {"op": "ctor", "via": via, "records": first, "delimiter": cfg["delimiter"], "schedule": k,
+                 "container": rng.choice(tokens.CONTAINERS)}
         if via == "reverse":
             # a reverse prefix map is a dict: its insertion order is part of the supply order
             pairs = [[u, r["prefix"]] for r in first for u in [r["uri_prefix"], *r["uri_prefix_synonyms"]]]
@@ -162,7 +183,7 @@ class C01Machine(Machine):
                 head = dict(r, uri_prefix_synonyms=[])
                 steps.append({"op": kind, "record": head, "schedule": k})
                 for u in r["uri_prefix_synonyms"]:
-                    carrier = rng.choice(["canonical", "canonical", "synonym", "via_uri"])
+                    carrier = rng.choice(["canonical", "canonical", "synonym", "via_uri", "restated"])
                     if carrier == "synonym" and not r["prefix_synonyms"]:
                         carrier = "canonical"
                     later.append({"op": "merge_piece", "prefix": r["prefix"], "uri_prefix": u, "schedule": k,
@@ -370,7 +391,11 @@ class C01Machine(Machine):
                         rpm.setdefault(u, r["prefix"])
                 self.conv = Converter.from_reverse_prefix_map(rpm, delimiter=delim)
             else:
-                self.conv = Converter([Record(**r) for r in recs], delimiter=delim)
+                self.conv = Converter(tokens.as_container(op.get("container", "list"), [Record(**r) for r in recs]),
+                                      delimiter=delim)
+                self.probe("records_given_as_" + op.get("container", "list"))
+            # the delimiter the converter was GIVEN (remembered here, not read back from the object)
+            self.delimiter_given = delim
             for r in recs:
                 self._register(r)
             self.event("ctor")
@@ -379,18 +404,22 @@ class C01Machine(Machine):
             self._new_schedule()
             parts = [Converter([Record(**r) for r in part]) for part in op["parts"]]
             self.conv = c.chain(parts)
+            self.delimiter_given = None
             # chain() builds with the default delimiter; the property is about whatever
             # delimiter the converter has, so read it from the object
             for part in op["parts"]:
                 for r in part:
                     self._register(r)
             self.probe("chain_parts")
+            if op.get("overlapping"):
+                self.probe("chain_parts_overlapping")
             self.saw_incremental = True
             site = "chain"
         else:
             if self.conv is None:
                 self._new_schedule()
                 self.conv = Converter([], delimiter=self.config["delimiter"])
+                self.delimiter_given = self.config["delimiter"]
             conv = self.conv
             # query - add - query: the strings this delivery is about are the last lookups before the
             # call and the first lookups after it
@@ -433,6 +462,10 @@ class C01Machine(Machine):
                     pr, up, ups = op["carrier_prefix"], op["uri_prefix"], []
                 elif carrier == "via_uri" and op.get("anchor_uri") in self.owners.owners:
                     pr, up, ups = "piece" + str(self.steps), op["anchor_uri"], [op["uri_prefix"]]
+                elif carrier == "restated" and op.get("anchor_uri") in self.owners.owners:
+                    # the record restated under its own canonical CURIE prefix AND canonical URI prefix,
+                    # bringing one more URI prefix as a synonym (known on both sides, new only in the synonyms)
+                    pr, up, ups = op["prefix"], op["anchor_uri"], [op["uri_prefix"]]
                 else:
                     pr, up, ups = op["prefix"], op["uri_prefix"], []
                 self.probe("piece_carrier_" + carrier)
@@ -506,6 +539,10 @@ class C01Machine(Machine):
         if len(owners.owners) > 256:
             self.probe("more_than_256_uri_prefixes")
         delim = conv.delimiter
+        if self.delimiter_given is not None and site not in ("chain", "get_subconverter", "rewire", "remap_uri", "remap_curie"):
+            # a converter must keep the delimiter it was constructed with through every incremental add
+            # (derived views are built with the default delimiter by the library: not judged here)
+            delim = self.delimiter_given
         if len(delim) > 1:
             self.probe("multi_char_delimiter")
         keys = list(owners.owners)
